@@ -144,7 +144,7 @@ theorem ioCnt_inits (k : IOKind) (r : GraphS) (l : List (String × Nat)) :
 theorem initDel_I_own (w : World) (g : Nat) (key : String) (h : I_own w) (hk : I_key w) :
     I_own (initDel w g key) := by
   cases hl : lookupInit (w.gr g).inits key with
-  | none => simp [initDel, hl]; exact h
+  | none => simp [initDel, hl]; exact I_own_bump h
   | some old =>
     have hmem := lookupInit_some _ _ _ hl
     obtain ⟨hoi, hog⟩ := h.init_mem g key old hmem
@@ -226,19 +226,29 @@ theorem initDel_I_own (w : World) (g : Nat) (key : String) (h : I_own w) (hk : I
 
 theorem setNamePlain_val (w : World) (v : Nat) (s : Option String) (u : Nat) :
     (setNamePlain w v s).val u = if u = v then { w.val v with name := s } else w.val u := by
-  unfold setNamePlain; split <;> simp [World.val, World.setVal, lget_lset]
+  have h1 : (noteOwner (w.setVal v { w.val v with name := s }) v s).val u =
+      if u = v then { w.val v with name := s } else w.val u := by simp
+  unfold setNamePlain; simp only []; split
+  · exact h1
+  · exact h1
 theorem setNamePlain_gr (w : World) (v : Nat) (s : Option String) (g : Nat) :
     (setNamePlain w v s).gr g = w.gr g := by
-  unfold setNamePlain; split <;> rfl
+  have h1 : (noteOwner (w.setVal v { w.val v with name := s }) v s).gr g = w.gr g := by simp
+  unfold setNamePlain; simp only []; split
+  · exact h1
+  · exact h1
 theorem setNamePlain_node (w : World) (v : Nat) (s : Option String) (n : Nat) :
     (setNamePlain w v s).node n = w.node n := by
-  unfold setNamePlain; split <;> rfl
+  have h1 : (noteOwner (w.setVal v { w.val v with name := s }) v s).node n = w.node n := by simp
+  unfold setNamePlain; simp only []; split
+  · exact h1
+  · exact h1
 
 theorem initOK_iff (w : World) (g : Nat) (key : String) (v : Nat) :
     initOK w g key v = true ↔
       key ≠ "" ∧ (falsy (w.val v).name = true ∨ (w.val v).name = some key) ∧ (w.val v).producer = none ∧
       ((w.val v).graph = none ∨ (w.val v).graph = some g) ∧
-      (falsy (w.val v).name = true → (w.val v).isInit = false) := by
+      (falsy (w.val v).name = true → (w.val v).isInit = false ∧ constLocked w v = false) := by
   simp [initOK]
   constructor
   · rintro ⟨⟨⟨⟨h1, h2⟩, h3⟩, h4⟩, h5⟩
@@ -447,7 +457,7 @@ theorem initPut_I_own (w : World) (g : Nat) (key : String) (v : Nat) (h : I_own 
           · assumption
           · simp at hgu
         · rename_i hl; simp only [hl, if_false]; exact h.graph_owned u g' hgu
-  · simp [initPut, hok]; exact h
+  · simp [initPut, hok]; exact I_own_bump h
 
 theorem initPut_I_key (w : World) (g : Nat) (key : String) (v : Nat) (h : I_own w) (hk : I_key w) :
     I_key (initPut w g key v) := by
@@ -488,7 +498,7 @@ theorem initPut_I_key (w : World) (g : Nat) (key : String) (v : Nat) (h : I_own 
       split
       · subst_vars; exact keys_dictSet _ _ _ (hk.keys _)
       · exact hk.keys g'
-  · simp [initPut, hok]; exact hk
+  · simp [initPut, hok]; exact I_key_bump hk
 
 theorem initPut_I_root (w : World) (g : Nat) (key : String) (v : Nat) (h : I_root w) :
     I_root (initPut w g key v) := by
@@ -504,11 +514,11 @@ theorem initPut_I_root (w : World) (g : Nat) (key : String) (v : Nat) (h : I_roo
         · exact Or.inl (by simpa [clearedInit] using hf)
         · simp at hf
       · exact h u
-  · simp [initPut, hok]; exact h
+  · simp [initPut, hok]; exact I_root_bump h
 
 theorem initDel_I_key (w : World) (g : Nat) (key : String) (hk : I_key w) : I_key (initDel w g key) := by
   cases hl : lookupInit (w.gr g).inits key with
-  | none => simp [initDel, hl]; exact hk
+  | none => simp [initDel, hl]; exact I_key_bump hk
   | some old =>
     constructor
     · intro g' key' u hm
@@ -529,7 +539,7 @@ theorem initDel_I_key (w : World) (g : Nat) (key : String) (hk : I_key w) : I_ke
 
 theorem initDel_I_root (w : World) (g : Nat) (key : String) (h : I_root w) : I_root (initDel w g key) := by
   cases hl : lookupInit (w.gr g).inits key with
-  | none => simp [initDel, hl]; exact h
+  | none => simp [initDel, hl]; exact I_root_bump h
   | some old =>
     intro u
     rw [initDel_val _ _ _ _ hl]
@@ -551,7 +561,7 @@ theorem initPut_I_use (w : World) (g : Nat) (key : String) (v : Nat) (h : I_use 
       · subst_vars; rfl
       · split <;> simp
     · intro n; rw [initPut_node]
-  · simp [initPut, hok]; exact h
+  · simp [initPut, hok]; exact I_use_bump h
 
 theorem initPut_I_prod (w : World) (g : Nat) (key : String) (v : Nat) (h : I_prod w) :
     I_prod (initPut w g key v) := by
@@ -561,7 +571,7 @@ theorem initPut_I_prod (w : World) (g : Nat) (key : String) (v : Nat) (h : I_pro
       · subst_vars; exact ⟨rfl, rfl⟩
       · split <;> simp
     · intro n; rw [initPut_node]
-  · simp [initPut, hok]; exact h
+  · simp [initPut, hok]; exact I_prod_bump h
 
 theorem initPut_I_node (w : World) (g : Nat) (key : String) (v : Nat) (h : I_node w) :
     I_node (initPut w g key v) := by
@@ -571,11 +581,11 @@ theorem initPut_I_node (w : World) (g : Nat) (key : String) (v : Nat) (h : I_nod
     · intro g'; rw [initPut_gr _ _ _ _ hok]; split
       · subst_vars; rfl
       · rfl
-  · simp [initPut, hok]; exact h
+  · simp [initPut, hok]; exact I_node_bump h
 
 theorem initDel_I_use (w : World) (g : Nat) (key : String) (h : I_use w) : I_use (initDel w g key) := by
   cases hl : lookupInit (w.gr g).inits key with
-  | none => simp [initDel, hl]; exact h
+  | none => simp [initDel, hl]; exact I_use_bump h
   | some old =>
     apply I_use_congr _ _ h
     · intro u; rw [initDel_val _ _ _ _ hl]; split
@@ -585,7 +595,7 @@ theorem initDel_I_use (w : World) (g : Nat) (key : String) (h : I_use w) : I_use
 
 theorem initDel_I_prod (w : World) (g : Nat) (key : String) (h : I_prod w) : I_prod (initDel w g key) := by
   cases hl : lookupInit (w.gr g).inits key with
-  | none => simp [initDel, hl]; exact h
+  | none => simp [initDel, hl]; exact I_prod_bump h
   | some old =>
     apply I_prod_congr _ _ h
     · intro u; rw [initDel_val _ _ _ _ hl]; split
@@ -595,7 +605,7 @@ theorem initDel_I_prod (w : World) (g : Nat) (key : String) (h : I_prod w) : I_p
 
 theorem initDel_I_node (w : World) (g : Nat) (key : String) (h : I_node w) : I_node (initDel w g key) := by
   cases hl : lookupInit (w.gr g).inits key with
-  | none => simp [initDel, hl]; exact h
+  | none => simp [initDel, hl]; exact I_node_bump h
   | some old =>
     apply I_node_congr _ _ h
     · intro n; rw [initDel_node]
